@@ -245,12 +245,18 @@ def pool_cases(full):
 
 
 def keyword_modules():
-    """one module per keyword for the rustc zoo: the keyword as component, alternative and ENUMERATED item in three separate
-    definitions (rustc reports the first syntax error of each item and goes on with the next item)"""
+    """rustc zoo: five keywords per module, each as component, alternative and ENUMERATED item in separate definitions
+    (rustc reports the first syntax error of every item and goes on with the next item, so one definition per use).
+    `self` is a component only here: as item/alternative it is the known class variant_named_Self (separate picks)."""
     G = []
-    for i, kw in enumerate(LOWER_KW):
-        G.append(("kw3:%s" % kw, mod_text("K%d" % i, "  Ta ::= SEQUENCE { %s INTEGER (0..9), fb BOOLEAN }\n  Tb ::= CHOICE { %s INTEGER (0..9), ab BOOLEAN }\n"
-                                          "  Tc ::= ENUMERATED { aa, %s }" % (kw, kw, kw))))
+    for g in range(0, len(LOWER_KW), 5):
+        defs = []
+        for i, kw in enumerate(LOWER_KW[g:g + 5]):
+            defs.append("  Ta%d ::= SEQUENCE { %s INTEGER (0..9), fb BOOLEAN }" % (i, kw))
+            if kw != "self":
+                defs.append("  Tb%d ::= CHOICE { %s INTEGER (0..9), ab BOOLEAN }" % (i, kw))
+                defs.append("  Tc%d ::= ENUMERATED { aa, %s }" % (i, kw))
+        G.append(("kw3:%s" % "+".join(LOWER_KW[g:g + 5]), mod_text("K%d" % g, "\n".join(defs))))
     return G
 
 
@@ -258,7 +264,7 @@ def fixed_zoo():
     """quick tier: independent of the seed"""
     Z = abstract_zoo() + keyword_modules()
     cases = dict(pool_cases(True))
-    picks = ["kw:ext-component:type", "kw:ext-component:fn", "kw:named-number:loop", "kw:value:match", "kw:type:self", "kw:inline:box",
+    picks = ["kw:alternative:self", "kw:item:self", "kw:ext-component:type", "kw:ext-component:fn", "kw:named-number:loop", "kw:value:match", "kw:type:self", "kw:inline:box",
              "kw:set-component:async", "kw:bit-name:yield", "kw:module:match", "kw:module:self", "kw:module:type", "kw:component:self-x",
              "collide:component:foo-bar/fooBar", "collide:component:foo-bar/foo_bar", "collide:alternative:foo-bar/fooBar", "collide:item:foo-bar/fooBar",
              "collide:named-number:foo-bar/fooBar", "collide:value:foo-bar/fooBar", "collide:type:foo-bar/fooBar", "collide:type:abc/aBC",
@@ -372,19 +378,21 @@ def classify_rustc(code, text, src):
         return "extensible_after_names_unescaped_field"
     m = re.search(r"expected identifier, found (?:reserved )?keyword `(\w+)`", text)
     if m:
-        return ("keyword_module_path:" if src.startswith("use super::") else "keyword_not_escaped:") + m.group(1)
+        if src.startswith("use super::"):
+            return "keyword_module_path"
+        return "variant_named_Self" if m.group(1) == "Self" else "keyword_not_escaped:" + m.group(1)
     if src.startswith("use super::self::"):
-        return "keyword_module_path:self"
+        return "keyword_module_path"
     m = re.search(r"expected identifier, found `(\w+)`", text)
     if m and m.group(1) in KEYWORDS:
-        return "keyword_not_escaped:" + m.group(1)
+        return "variant_named_Self" if m.group(1) == "Self" else "keyword_not_escaped:" + m.group(1)
     m = re.search(r"expected one of .*found keyword `(\w+)`", text) or re.search(r"expected .*, found keyword `(\w+)`", text)
     if m:
-        return "keyword_not_escaped:" + m.group(1)
+        return "variant_named_Self" if m.group(1) == "Self" else "keyword_not_escaped:" + m.group(1)
     if "`self`" in text and ("cannot be" in text or "imports" in text or "in paths" in text):
         return "keyword_not_escaped:self"
     if "`Self`" in text:
-        return "keyword_not_escaped:Self"
+        return "variant_named_Self"
     m = re.search(r"\bpub (\w+):", src) or re.match(r"(?:#\[[^\]]*\]\s*)?(\w+)\s*[,(]", src)
     if m and m.group(1) in KEYWORDS and not code.startswith("E03") and code not in ("E0277", "E0428", "E0124"):
         return "keyword_not_escaped:" + m.group(1)
@@ -457,7 +465,7 @@ def check_set(active):
 
 
 def compile_cases(texts_by_case, log=vlib.log):
-    """texts_by_case: {k: [(file name, text)]} -> {k: [] (compiles) | [(class, message, source line)]}"""
+    """texts_by_case: {k: [(file name, text)]} -> {k: [] (compiles) | [(rustc error code, message, source line)]}  (raw diagnostics)"""
     os.makedirs(os.path.join(E2E_DIR, "src"), exist_ok=True)
     lock = os.path.join(E2E_DIR, "Cargo.lock")
     if not os.path.exists(lock):
@@ -475,7 +483,7 @@ def compile_cases(texts_by_case, log=vlib.log):
             bad, r = check_set(keys[b:b + BATCH])
             runs += r
             for k in keys[b:b + BATCH]:
-                result[k] = [(classify_rustc(c, t, s), t, s) for c, t, s in bad.get(k, [])]
+                result[k] = [(c, t, s) for c, t, s in bad.get(k, [])]
         with open(os.path.join(E2E_DIR, "src", "lib.rs"), "w") as f:
             f.write(CRATE_HEADER)
         for f in os.listdir(os.path.join(E2E_DIR, "src")):
@@ -499,7 +507,7 @@ class C09(Spec):
     prop = "C09"
     coq_targets = ["Props/C09.vo"]
     prop_module = "Props.C09"
-    theorems = ["C09_field_idents_legal", "C09_refuted_keyword", "C09_refuted_keyword_count", "C09_variant_idents_legal",
+    theorems = ["C09_field_idents_legal", "C09_keywords_complete", "C09_keywords_complete_identifier", "C09_keywords_escaped", "C09_variant_idents_legal",
                 "C09_type_idents_legal", "C09_refuted_variant_Self", "C09_mangle_collision_refuted"]
     builds = [("default", "dev")]
     level_text = ("Partial by design (DESIGN.md section 8): 'rustc accepts' is checked by running the real rustc on the generated files "
@@ -512,8 +520,10 @@ class C09(Spec):
             "extension-root component, SET component, alternative, ENUMERATED item, named number, named bit, value reference, type "
             "reference (capitalised), inline type, module reference), hyphen/underscore/case variants and well-known Rust names at the "
             "same positions, pairs of names differing only in case or separators in one scope, type names shadowing names the generated "
-            "code uses, every value-reference kind, structural corner cases; rustc stage: quick = fixed zoo of ~140 modules (C08 template "
-            "pool + grouped keywords + picks of the pool), thorough = + 1000 seeded modules of the C08 grammar with pool identifiers. "
+            "code uses, every value-reference kind, structural corner cases; rustc stage: quick = fixed zoo of ~125 modules (C08 template "
+            "pool + all keywords, five per module as component/alternative/item in separate definitions + picks of the pool + corner "
+            "cases; reduced from one module per keyword to stay within minutes on a cold cache), cached under .cache/c09_e2e_<hash of the "
+            "/repo sources + zoo text>.json; thorough = + 1000 seeded modules of the C08 grammar with pool identifiers. "
             "non-trivial = the front end accepted the module and emitted at least 3 identifiers; distinct = distinct module text")
     assumptions_text = ["the line scanner of op 3402 finds every identifier the generator emits (cross-checked against rustc: a module the "
                         "logic oracle passes but rustc rejects is reported)",
@@ -566,7 +576,7 @@ class C09(Spec):
             files = parse_3403(out)
             if files is None:
                 return None
-            errs = compile_cases({0: files}).get(0, [])
+            errs = [(classify_rustc(c, t, sl), t, sl) for c, t, sl in compile_cases({0: files}).get(0, [])]
             text = " ".join(text_of_line(line).replace("\0", " || ").split())
             return [(c, "rustc rejects the generated code: %s | %s :: %s" % (m[:200], sl[:120], text[:600])) for c, m, sl in primary_causes(errs, files)] or None
         if op != "3402":
@@ -574,11 +584,14 @@ class C09(Spec):
         text = " ".join(text_of_line(line).replace("\0", " || ").split())
         o = ints_of(out)
         if out.startswith("3 "):
-            return ("front_end_crash", "%s :: %s" % (out, text))
+            cls = "untagged_choice_cycle_stack_overflow" if out == "3 32" and choice_cycle(text) else "front_end_crash"
+            return (cls, "%s :: %s" % (out, text))
         if o[:1] == [1]:
             return None if o[1] in (1, 2) else ("codegen_error_stage_%d" % o[1], text)
         if o[:1] == [2]:
             stage = o[1] if len(o) > 1 else 0
+            if stage == 4 and o[2:] == [1] and re.search(r"(SEQUENCE|SET)\s*\{\s*\.\.\.\s*\}", text):
+                return ("generator_panic_empty_extensible", "stage 4 index out of bounds :: %s" % text)
             return ("front_end_panic" if stage <= 3 else "generator_panic", "stage %d class %s :: %s" % (stage, o[2:], text))
         parsed = parse_3402(out)
         if parsed is None:
@@ -601,7 +614,8 @@ class C09(Spec):
             zoo += seeded_zoo(ctx["seed"], 1000)
         labels = [z[0] for z in zoo]
         lines = [line_of(z[1], 3403) for z in zoo]
-        key = hashlib.sha256((repo_hash() + "\n" + "\n".join(lines) + open(__file__).read()).encode()).hexdigest()[:24]
+        # the cache holds rustc's raw diagnostics per zoo module; it depends on the /repo sources, the zoo text and the crate header only
+        key = hashlib.sha256((repo_hash() + "\n" + CRATE_HEADER + "\n".join(lines)).encode()).hexdigest()[:24]
         cache = os.path.join(vlib.CACHE, "c09_e2e_%s.json" % key)
         outs = vlib.run_lines([exe], lines, timeout=300)
         accepted, rejected, panicked = {}, 0, 0
@@ -615,13 +629,14 @@ class C09(Spec):
                 continue          # reported by the logic stream (same module text under op 3402) or below
             accepted[k] = parse_3403(out)
         if os.path.exists(cache):
-            res = {int(k): [tuple(e) for e in v] for k, v in json.load(open(cache)).items()}
+            raw = {int(k): [tuple(e) for e in v] for k, v in json.load(open(cache)).items()}
             cached = True
         else:
-            res = compile_cases(accepted)
+            raw = compile_cases(accepted)
             with open(cache, "w") as f:
-                json.dump(res, f)
+                json.dump(raw, f)
             cached = False
+        res = {k: [(classify_rustc(c, t, sl), t, sl) for c, t, sl in v] for k, v in raw.items()}
         # logic verdict on the same modules, for the cross comparison
         louts = vlib.run_lines([exe], [line_of(z[1], 3402) for z in zoo], timeout=300)
         n_bad = 0
@@ -646,6 +661,19 @@ class C09(Spec):
                                                  "from_cache": cached, "cache_key": key}}
 
 
+def choice_cycle(text):
+    """the module text has untagged CHOICE definitions that reach each other through their alternatives"""
+    ch = {}
+    for m in re.finditer(r"\b([A-Z][\w-]*)\s*::=\s*CHOICE\s*\{([^{}]*)\}", text):
+        ch[m.group(1)] = set(re.findall(r"\b([A-Z][\w-]*)\b", m.group(2)))
+    def reach(a, seen):
+        for b in ch.get(a, ()):
+            if b in ch and (b in seen or reach(b, seen | {b})):
+                return True
+        return False
+    return any(reach(a, {a}) for a in ch)
+
+
 def primary_causes(errs, files):
     """rustc's diagnostics for one module -> the (class, message, source line) entries worth reporting: a keyword or a name
     clash is the primary cause and whatever else rustc says about the same module follows from it"""
@@ -653,13 +681,13 @@ def primary_causes(errs, files):
     for cls, msg, src in errs:
         if cls not in [f[0] for f in found]:
             found.append((cls, msg, src))
-    primary = [f for f in found if f[0].startswith(("keyword_not_escaped", "keyword_module_path", "ident_collision:item", "ident_collision:field"))]
+    primary = [f for f in found if f[0].startswith(("keyword_not_escaped", "variant_named_Self", "keyword_module_path", "ident_collision:item", "ident_collision:field"))]
     if not primary:
         primary = [f for f in found if f[0].startswith("ident_collision")]
     if not primary:
         shadowed = [n for n in RELIED_ON if any(re.search(r"^pub (?:struct|enum) %s\b" % n, t, flags=re.M) for _f, t in files)]
         if shadowed:
-            primary = [("type_name_captures_rust_name:" + shadowed[0], found[0][1], found[0][2])]
+            primary = [("type_name_captures_rust_name", "%s: %s" % (shadowed[0], found[0][1]), found[0][2])]
     if not primary and any(f[0] in ("macro_panic", "string_literal_not_escaped") for f in found) and any("\\" in t for _f, t in files):
         primary = [("string_literal_not_escaped", found[0][1], found[0][2])]
     return primary or found
@@ -677,7 +705,7 @@ def logic_oracle(names, consts):
         if ns == 7:
             pr = ident_problem(name)
             if pr:
-                fails.append((pr.replace("keyword_not_escaped", "keyword_module_path"), "module `%s` in the path of an import" % name))
+                fails.append(("keyword_module_path" if pr.startswith("keyword_not_escaped") else pr, "module `%s` in the path of an import" % name))
             continue
         if ns == 6:
             # an imported name is only judged as an identifier; it may legally coincide with nothing local
@@ -687,6 +715,8 @@ def logic_oracle(names, consts):
             key = (1, scope, name)
         else:
             pr = ident_problem(name)
+            if pr == "keyword_not_escaped:Self" and ns in (1, 2, 4):
+                pr = "variant_named_Self"      # the item/alternative `self` or the type `Self`: upper-cased into the keyword
             if pr:
                 fails.append((pr, "%s name `%s` in scope `%s`" % (NS_NAME.get(ns, ns), name, scope)))
             key = (ns, scope, name[2:] if name.startswith("r#") else name)
